@@ -12,8 +12,61 @@ fn w(name: &str, f: impl FnOnce() -> Result<(), String> + std::panic::UnwindSafe
 }
 const TAG: &str = "0xf29dd16310c2100fd1bf568b345fb1cc14d71caa3bd9b5ad735d2bd6d455ca3b";
 
+/// C17 as a BOUNDED grid over did:<method>:<segments>[suffix]: whatever IotaDID::parse accepts has the stated shape, is
+/// in normal form, recomposes and re-parses; two accepted values are equal exactly when network and tag bytes agree
+fn parse_grid_shape_and_equality() -> Result<(), String> {
+  let hex64 = "f29dd16310c2100fd1bf568b345fb1cc14d71caa3bd9b5ad735d2bd6d455ca3b";
+  let other64 = "0000000000000000000000000000000000000000000000000000000000000001";
+  let tags: Vec<String> = vec![
+    format!("0x{hex64}"), format!("0x{}", hex64.to_uppercase()), format!("0X{hex64}"), hex64.to_owned(), format!("0x{}", &hex64[..63]), format!("0x{hex64}0"),
+    format!("0x{}g", &hex64[..63]), format!("0x{}\u{e9}", &hex64[..62]), format!("0x{other64}"), "0x".to_owned(), String::new(), format!("0x{}", &hex64[..62]),
+  ];
+  let methods = ["iota", "IOTA", "Iota", "iot", "iotas"];
+  let networks: [Option<&str>; 12] = [None, Some(""), Some("rms"), Some("RMS"), Some("Smr"), Some("a1b2c3"), Some("toolong"), Some("a-b"), Some("\u{e9}"), Some("iota"), Some("IOTA"), Some("0")];
+  let extras = ["", ":x", ":"];
+  let suffixes = ["", "/p", "?q", "#f", "/"];
+  let mut accepted: Vec<(String, IotaDID)> = vec![];
+  let mut n = 0u32;
+  for m in methods { for net in networks { for tag in &tags { for extra in extras { for suffix in suffixes {
+    let text = format!("did:{m}:{}{tag}{extra}{suffix}", net.map(|x| format!("{x}:")).unwrap_or_default());
+    n += 1;
+    let r = catch_unwind(|| IotaDID::parse(&text)).map_err(|_| format!("IotaDID::parse({text:?}) PANICS"))?;
+    if let Ok(d) = r {
+      let (network, t) = (d.network_str().to_owned(), d.tag_str().to_owned());
+      if d.method() != "iota" { return Err(format!("{text:?} accepted with method {:?}", d.method())); }
+      if network.is_empty() || network.len() > 6 || !network.chars().all(|c| c.is_ascii_lowercase() || c.is_ascii_digit()) { return Err(format!("{text:?} accepted with network {network:?}")); }
+      if t.len() != 66 || !t.starts_with("0x") || !t[2..].chars().all(|c| c.is_ascii_hexdigit()) { return Err(format!("{text:?} accepted with tag {t:?}")); }
+      let s = d.to_string();
+      if s != s.to_lowercase() { return Err(format!("{text:?} is held as {s:?}: not lowercase")); }
+      let expect = if network == "iota" { format!("did:iota:{t}") } else { format!("did:iota:{network}:{t}") };
+      if s != expect { return Err(format!("{text:?} is held as {s:?}, network / tag recompose to {expect:?}")); }
+      if s.contains('/') || s.contains('?') || s.contains('#') { return Err(format!("{text:?} accepted with a url part: {s:?}")); }
+      match IotaDID::parse(&s) { Ok(again) if again == d => {}, other => return Err(format!("{s:?} re-parses to {other:?}")) }
+      // only the stated liberties: case, and the explicit default network
+      if text.to_lowercase().replace("did:iota:iota:", "did:iota:") != s { return Err(format!("{text:?} was accepted as {s:?}")); }
+      accepted.push((text, d));
+    }
+  } } } } }
+  if accepted.len() < 20 || n < 3000 { return Err(format!("{n} strings, {} accepted", accepted.len())); }
+  for (ta, a) in &accepted { for (tb, b) in &accepted {
+    let same = a.network_str() == b.network_str() && a.tag_str() == b.tag_str();
+    if (a == b) != same { return Err(format!("{ta:?} == {tb:?} is {}, but network/tag agree = {same}", a == b)); }
+    if same && a.to_string() != b.to_string() { return Err(format!("equal values print differently: {ta:?} / {tb:?}")); }
+  } }
+  // built from bytes + name: exposes exactly those
+  for net in ["iota", "rms", "a1b2c3", "0"] { for b in [[0u8; 32], [0xffu8; 32], { let mut x = [0u8; 32]; x[0] = 0xf2; x[31] = 0x3b; x }] {
+    let name = NetworkName::try_from(net.to_owned()).map_err(|e| e.to_string())?;
+    let d = IotaDID::new(&b, &name);
+    let hex: String = b.iter().map(|x| format!("{x:02x}")).collect();
+    if d.network_str() != net || d.tag_str() != format!("0x{hex}") { return Err(format!("IotaDID::new({net}, {hex}) exposes {} / {}", d.network_str(), d.tag_str())); }
+    if IotaDID::parse(d.to_string()).ok().as_ref() != Some(&d) || IotaDID::from_alias_id(&format!("0x{hex}"), &name) != d { return Err(format!("IotaDID::new({net}, {hex}) does not round trip")); }
+  } }
+  Ok(())
+}
+
 fn main() {
   std::panic::set_hook(Box::new(|_| {}));
+  w("id_parse_grid_shape_and_equality", parse_grid_shape_and_equality);
   w("id_network_name_rule", || {
     for (name, want) in [("iota", true), ("a", true), ("0", true), ("abc123", true), ("smr", true), ("", false), ("abcdefg", false), ("Main", false), ("a-b", false), ("a b", false), ("a:b", false),
                          ("rms\u{0663}", false), ("dev\u{00b2}", false), ("\u{00bd}", false), ("\u{00e9}", false), ("ab\u{0131}", false), ("\u{ff11}", false)] {
